@@ -121,7 +121,7 @@ def run_case(ctx, kind, rng, idx):
     results = {}
     for cname in mc.CONTAINERS + list(mc.SPARSE_ARRAY):
         info_only = cname in mc.SPARSE_ARRAY
-        Cin = mc.to_container(C, cname)
+        Cin = mc.to_container(C, cname, rng)
         pr = None if prior is None else (
             prior if np.isscalar(prior) else prior.copy())
         fz = Frozen(Cin, pr)
